@@ -143,6 +143,93 @@ func dtoOf(fset *token.FileSet, files []*ast.File, recv string) (*ast.TypeSpec, 
 	return nil, nil, fmt.Errorf("%s.UnmarshalCBOR decodes into %s, not declared in the package", recv, name)
 }
 
+// Shallow groups: DTO structs known to the model only by their wire field names (every value
+// schema is "any"; the model's rule is "no component missing or null").  A group is addressed by
+// the prefix of the harness' type name; it may hold several candidate structs (all message structs
+// of a protocol package): an item conforms if its keys are fields of one of them.
+//
+//	strict = the type's UnmarshalCBOR validates (nil components are refused at decoding);
+//	otherwise (plain message structs decoded by reflection) missing components are refused by
+//	Validate in the round function, not by the decoder.
+type serdeGroup struct {
+	name   string
+	strict bool
+	recvs  [][2]string // (dir, receiver): DTO found through recv.UnmarshalCBOR
+	files  []string    // every struct type declared in these files with at least one exported field
+}
+
+var serdeGroupList = []serdeGroup{
+	{name: "schnorr-commitment", strict: true, recvs: [][2]string{{"pkg/proofs/internal/meta/maurer09", "Commitment"}}},
+	{name: "schnorr-response", strict: true, recvs: [][2]string{{"pkg/proofs/internal/meta/maurer09", "Response"}}},
+	{name: "schnorr-statement", strict: true, recvs: [][2]string{{"pkg/proofs/internal/meta/maurer09", "Statement"}}},
+	{name: "schnorr-witness", strict: true, recvs: [][2]string{{"pkg/proofs/internal/meta/maurer09", "Witness"}}},
+	{name: "schnorrproof", strict: true, recvs: [][2]string{{"pkg/proofs/sigma/compiler/fiatshamir/zkmodule", "Proof"}}},
+	{name: "pedersencom-key", strict: true, recvs: [][2]string{{"pkg/commitments/pedersencom", "CommitmentKey"}}},
+	{name: "pedersencom-trapdoor", strict: true, recvs: [][2]string{{"pkg/commitments/pedersencom", "TrapdoorKey"}}},
+	{name: "pedersencom-message", strict: true, recvs: [][2]string{{"pkg/commitments/pedersencom", "Message"}}},
+	{name: "pedersencom-witness", strict: true, recvs: [][2]string{{"pkg/commitments/pedersencom", "Witness"}}},
+	{name: "pedersencom-commitment", strict: true, recvs: [][2]string{{"pkg/commitments/pedersencom", "Commitment"}}},
+	{name: "polynomial", strict: true, recvs: [][2]string{{"pkg/base/polynomials", "Polynomial"}}},
+	{name: "mvpolynomial", strict: true, recvs: [][2]string{{"pkg/base/polynomials", "ModuleValuedPolynomial"}}},
+	{name: "msg-session", files: []string{"pkg/mpc/session/messages.go"}},
+	{name: "msg-gennaro", files: []string{"pkg/mpc/dkg/gennaro/messages.go"}},
+	{name: "msg-canetti", files: []string{"pkg/mpc/dkg/canetti/messages.go"}},
+	{name: "msg-hjky", files: []string{"pkg/mpc/zero/hjky/messages.go"}},
+	{name: "msg-redistribute", files: []string{"pkg/mpc/redistribute/messages.go"}},
+	{name: "msg-dkls23-bbot", files: []string{"pkg/mpc/signatures/ecdsa/dkls23/signing_bbot/messages.go"}},
+	{name: "msg-dkls23-softspoken", files: []string{"pkg/mpc/signatures/ecdsa/dkls23/signing_softspoken/messages.go"}},
+	{name: "msg-lindell22", files: []string{"pkg/mpc/signatures/schnorr/lindell22/signing/messages.go"}},
+	{name: "msg-lindell17", files: []string{"pkg/mpc/signatures/ecdsa/lindell17/signing/messages.go", "pkg/mpc/signatures/ecdsa/lindell17/keygen/dkg/messages.go"}},
+	{name: "msg-cggmp21", files: []string{"pkg/mpc/signatures/ecdsa/cggmp21/signing/messages.go", "pkg/mpc/signatures/ecdsa/cggmp21/keygen/dkg/messages.go"}},
+	{name: "msg-aor", files: []string{"pkg/mpc/aor/messages.go"}},
+}
+
+// dtoWireFields renders the wire fields of a struct: (coq list items, names) or an error.
+func dtoWireFields(fset *token.FileSet, where string, st *ast.StructType) ([]string, []string, error) {
+	var items, comment []string
+	for _, fld := range st.Fields.List {
+		if len(fld.Names) == 0 {
+			return nil, nil, fmt.Errorf("%s: embedded field %s", where, src(fset, fld.Type))
+		}
+		for _, nm := range fld.Names {
+			if !nm.IsExported() {
+				continue // encoding ignores unexported fields
+			}
+			name, omit := nm.Name, false
+			if fld.Tag != nil {
+				raw, err := strconv.Unquote(fld.Tag.Value)
+				if err != nil {
+					return nil, nil, fmt.Errorf("%s.%s: tag %s", where, nm.Name, fld.Tag.Value)
+				}
+				if tag, ok := reflect.StructTag(raw).Lookup("cbor"); ok {
+					parts := strings.Split(tag, ",")
+					if parts[0] == "-" {
+						continue
+					}
+					if parts[0] != "" {
+						name = parts[0]
+					}
+					for _, o := range parts[1:] {
+						switch o {
+						case "omitempty":
+							omit = true
+						default:
+							return nil, nil, fmt.Errorf("%s.%s: unsupported cbor tag option %q", where, nm.Name, o)
+						}
+					}
+				}
+			}
+			b := "false"
+			if omit {
+				b = "true"
+			}
+			items = append(items, fmt.Sprintf("(%s, %s)", coqBytesOfString(name), b))
+			comment = append(comment, name)
+		}
+	}
+	return items, comment, nil
+}
+
 func genSerdeDtos(repo string) (string, map[string]string, error) {
 	hashes := map[string]string{}
 	fset := token.NewFileSet()
@@ -175,51 +262,135 @@ func genSerdeDtos(repo string) (string, map[string]string, error) {
 			return "", nil, fmt.Errorf("%s: %v", d.dir, err)
 		}
 		hashes[d.coq] = hashText(src(fset, spec))
-		var items []string
-		var comment []string
-		for _, fld := range st.Fields.List {
-			if len(fld.Names) == 0 {
-				return "", nil, fmt.Errorf("%s.%s: embedded field %s", d.dir, d.recv, src(fset, fld.Type))
-			}
-			for _, nm := range fld.Names {
-				if !nm.IsExported() {
-					continue // encoding ignores unexported fields
-				}
-				name, omit := nm.Name, false
-				if fld.Tag != nil {
-					raw, err := strconv.Unquote(fld.Tag.Value)
-					if err != nil {
-						return "", nil, fmt.Errorf("%s.%s.%s: tag %s", d.dir, d.recv, nm.Name, fld.Tag.Value)
-					}
-					tag, ok := reflect.StructTag(raw).Lookup("cbor")
-					if ok {
-						parts := strings.Split(tag, ",")
-						if parts[0] == "-" {
-							continue
-						}
-						if parts[0] != "" {
-							name = parts[0]
-						}
-						for _, o := range parts[1:] {
-							switch o {
-							case "omitempty":
-								omit = true
-							default:
-								return "", nil, fmt.Errorf("%s.%s.%s: unsupported cbor tag option %q", d.dir, d.recv, nm.Name, o)
-							}
-						}
-					}
-				}
-				b := "false"
-				if omit {
-					b = "true"
-				}
-				items = append(items, fmt.Sprintf("(%s, %s)", coqBytesOfString(name), b))
-				comment = append(comment, name)
-			}
+		items, comment, err := dtoWireFields(fset, d.dir+"."+d.recv, st)
+		if err != nil {
+			return "", nil, err
 		}
 		fmt.Fprintf(&sb, "(* %s %s: %s *)\n", d.dir, d.recv, strings.Join(comment, ", "))
 		fmt.Fprintf(&sb, "Definition dto_%s : list (list N * bool) :=\n  [ %s ].\n\n", d.coq, strings.Join(items, ";\n    "))
 	}
+	// shallow groups
+	loadDir := func(dir string) ([]*ast.File, error) {
+		if files, ok := pkgs[dir]; ok {
+			return files, nil
+		}
+		ents, err := os.ReadDir(filepath.Join(repo, dir))
+		if err != nil {
+			return nil, err
+		}
+		var files []*ast.File
+		for _, e := range ents {
+			if e.IsDir() || !strings.HasSuffix(e.Name(), ".go") || strings.HasSuffix(e.Name(), "_test.go") {
+				continue
+			}
+			f, err := parser.ParseFile(fset, filepath.Join(repo, dir, e.Name()), nil, 0)
+			if err != nil {
+				return nil, err
+			}
+			files = append(files, f)
+		}
+		pkgs[dir] = files
+		return files, nil
+	}
+	sb.WriteString("(* shallow groups: (type-name prefix, decoder validates?, candidate field lists) *)\n")
+	var groupItems []string
+	var table []string // the same table in a line format the OCaml driver reads (the extracted constant is too large for ocamlopt)
+	nCand := 0
+	// small separate definitions (one per field name, per layout, per group): a single large literal makes the
+	// extracted OCaml constant too deep for ocamlopt
+	defCand := func(comment string, items []string) string {
+		nCand++
+		{
+			// "cand name:omit name:omit ..." from the rendered items' comment (names in order)
+			names := strings.Split(comment[strings.LastIndex(comment, ": ")+2:], ", ")
+			var fs []string
+			for j, nm := range names {
+				o := "0"
+				if strings.HasSuffix(items[j], "true)") {
+					o = "1"
+				}
+				fs = append(fs, nm+":"+o)
+			}
+			table = append(table, "cand "+strings.Join(fs, " "))
+		}
+		var names []string
+		for j, it := range items {
+			nm := fmt.Sprintf("dtoc_%d_f%d", nCand, j)
+			fmt.Fprintf(&sb, "Definition %s : list N * bool := %s.\n", nm, it)
+			names = append(names, nm)
+		}
+		fmt.Fprintf(&sb, "Definition dtoc_%d : list (list N * bool) := [ %s ]. (* %s *)\n", nCand, strings.Join(names, "; "), comment)
+		return fmt.Sprintf("dtoc_%d", nCand)
+	}
+	for _, g := range serdeGroupList {
+		gs := "0"
+		if g.strict {
+			gs = "1"
+		}
+		table = append(table, "group "+g.name+" "+gs)
+		var cands []string
+		for _, rc := range g.recvs {
+			files, err := loadDir(rc[0])
+			if err != nil {
+				return "", nil, err
+			}
+			spec, st, err := dtoOf(fset, files, rc[1])
+			if err != nil {
+				return "", nil, fmt.Errorf("group %s: %s: %v", g.name, rc[0], err)
+			}
+			hashes["group/"+g.name+"/"+rc[1]] = hashText(src(fset, spec))
+			items, comment, err := dtoWireFields(fset, rc[0]+"."+rc[1], st)
+			if err != nil {
+				return "", nil, err
+			}
+			cands = append(cands, defCand(fmt.Sprintf("%s.%s: %s", rc[0], rc[1], strings.Join(comment, ", ")), items))
+		}
+		for _, file := range g.files {
+			f, err := parser.ParseFile(fset, filepath.Join(repo, file), nil, 0)
+			if err != nil {
+				return "", nil, fmt.Errorf("group %s: %v", g.name, err)
+			}
+			n := 0
+			for _, decl := range f.Decls {
+				gd, ok := decl.(*ast.GenDecl)
+				if !ok {
+					continue
+				}
+				for _, s := range gd.Specs {
+					ts, ok := s.(*ast.TypeSpec)
+					if !ok {
+						continue
+					}
+					st, ok := ts.Type.(*ast.StructType)
+					if !ok {
+						continue
+					}
+					items, comment, err := dtoWireFields(fset, file+"."+ts.Name.Name, st)
+					if err != nil {
+						return "", nil, err
+					}
+					if len(items) == 0 {
+						continue
+					}
+					n++
+					hashes["group/"+g.name+"/"+ts.Name.Name] = hashText(src(fset, ts))
+					cands = append(cands, defCand(fmt.Sprintf("%s %s: %s", file, ts.Name.Name, strings.Join(comment, ", ")), items))
+				}
+			}
+			if n == 0 {
+				return "", nil, fmt.Errorf("group %s: no struct with exported fields in %s", g.name, file)
+			}
+		}
+		b := "false"
+		if g.strict {
+			b = "true"
+		}
+		gi := len(groupItems)
+		fmt.Fprintf(&sb, "Definition dtog_name_%d : list N := %s. (* %s *)\n", gi, coqBytesOfString(g.name), g.name)
+		fmt.Fprintf(&sb, "Definition dtog_%d : list N * (bool * list (list (list N * bool))) := (dtog_name_%d, (%s, [ %s ])).\n\n", gi, gi, b, strings.Join(cands, "; "))
+		groupItems = append(groupItems, fmt.Sprintf("dtog_%d", gi))
+	}
+	fmt.Fprintf(&sb, "Definition dto_groups : list (list N * (bool * list (list (list N * bool)))) :=\n  [ %s ].\n", strings.Join(groupItems, "; "))
+	sb.WriteString("\n(*TABLE\n" + strings.Join(table, "\n") + "\nTABLE*)\n")
 	return sb.String(), hashes, nil
 }
